@@ -17,6 +17,9 @@ Oracle, two clauses:
 Which of the two happens is the format's choice wherever the statement leaves
 it open; a *shape* violation of a fixed-size attribute must be rejected by
 every format.
+Stage ``grid`` (enumerated, exhaustive over its grid): every (format, declared
+dtype, scalar / rank-2 shape, violation kind) cell once, the violation on the
+very first write and on the first write after a full shard.
 """
 from __future__ import annotations
 
@@ -404,7 +407,48 @@ class _NoUnlisted:
                               details)
 
 
+def enumerate_grid(tier):
+    """Every (format, declared dtype, scalar / rank-2 shape, violation kind)
+    cell once: one payload attribute, examples_per_shard 2, six writes of
+    which the very first one and the first one after a full shard carry the
+    violation (the random stage reaches a given cell of this product only
+    once in hundreds of cases)."""
+    cases = []
+    for fmt, dts in (("fb", DT_FB), ("npz", DT_NPZ), ("tfrec", DT_TFREC)):
+        for dt in sorted(set(dts)):
+            for shape in ([], [2, 3]):
+                if dt in ("bytes", "str") and shape:
+                    continue
+                for kind in KINDS:
+                    attr = {"name": "a0", "dtype": dt, "shape": shape}
+                    if bad_value(attr, dsops.value_for(attr, 1, 1),
+                                 kind) is None:
+                        continue
+                    writes = [{"split": 0, "bad": None, "meta": 0}
+                              for _ in range(6)]
+                    for pos in (0, 3):
+                        writes[pos]["bad"] = {"attr": 1, "kind": kind}
+                    cases.append({
+                        "fmt": fmt,
+                        "comp": 0,
+                        "eps": 2,
+                        "attrs": [{"name": "id", "dtype": "int64",
+                                   "shape": []}, attr],
+                        "writes": writes,
+                    })
+    return cases
+
+
 STAGES = [
+    Stage(name="grid",
+          run=run_case,
+          enumerate=enumerate_grid,
+          exhaustive=True,
+          fork=True,
+          rust=True,
+          timeout=150,
+          timeout_violation=hang_is_violation(
+              "accept-readable", "a session with caught rejected writes (or reading back after it)")),
     Stage(name="writes",
           run=run_case,
           strategy=lambda tier: strategy_case(tier),
